@@ -280,3 +280,68 @@ Example C08_text_example :
     apply_diff x_conv kv_isort dbA [45 :: x_a2] = Err E_NXVAL.
 Proof. exact link_example. Qed.
 Print Assumptions C08_text_example.
+
+(* ================================================================================================
+   The value-size guards follow from the LENGTH of the text lines (Proofs/TextSizes.v, Proofs/LinkSizes.v)
+   when the library's ParseIP returns 16-byte addresses (parse_ip_16 o).
+   ================================================================================================ *)
+From DnsV Require Import Proofs.TextSizes Proofs.LinkSizes.
+
+(* every value a line compiles to is at most 12 * |line| + 500000 bytes long (Bunquote emits at most four
+   bytes per byte, a server name is expanded by the owner, B/H lists hold at most seven parameters of at
+   most 65535 bytes) *)
+Theorem C08_values_bounded : forall o v2 serial l r,
+  (forall s a, o_parse_ip o s = Some a -> length a = 16%nat) ->
+  parse_line o serial l = Ok r ->
+  Forall (fun p => nlen (snd p) <= 12 * nlen l + 500000) (convert v2 true r).
+Proof. exact convert_values_bounded. Qed.
+Print Assumptions C08_values_bounded.
+
+(* so the guards of the text theorems are decided on the text alone, independent of serial and key layout:
+   pre_line_textb = not a '%' line, no parse_error, at most 2^24 bytes (short_lineb) *)
+Theorem C08_text_guard_syntactic : forall o v2 serial, parse_ip_16 o ->
+  (forall f, forallb (pre_line_textb o) f = true -> pre_file o v2 serial f) /\
+  (forall d, forallb short_lineb d = true -> forallb (plus_smallb o v2 serial) d = true).
+Proof.
+  intros o v2 serial H. split; [intro f; apply pre_file_text; exact H | intro d; apply plus_small_short; exact H].
+Qed.
+Print Assumptions C08_text_guard_syntactic.
+
+(* C08_preprocessed_diff_end_to_end with the value-size guards replaced by: every line of A and of B is at
+   most 2^24 bytes long *)
+Theorem C08_preprocessed_diff_end_to_end_short : forall o,
+  (forall a, wf_bytes a -> length a = 16%nat -> o_parse_ip o (o_print_ip o a) = Some a) ->
+  o_parse_ip o [] = None ->
+  (forall a, contains 44 (o_print_ip o a) = false) ->
+  parse_ip_16 o ->
+  forall sort, sort_spec sort ->
+  forall v2 serial pserial, serial <= max32 -> pserial = serial \/ pserial = 0 ->
+  forall ksort, sort_ok ksort ->
+  forall A B,
+  Proofs.Preproc.wf_file o serial A -> file_subnets_wfb o serial A = true -> forallb short_lineb A = true ->
+  Proofs.Preproc.wf_file o serial B -> file_subnets_wfb o serial B = true -> forallb short_lineb B = true ->
+  exists bodyA pointsA bodyB pointsB,
+    preprocess o (rearrange_total sort) pserial A = Ok (bodyA ++ map (marshal o) pointsA) /\
+    preprocess o (rearrange_total sort) pserial B = Ok (bodyB ++ map (marshal o) pointsB) /\
+    forall pa pb, Permutation pa pointsA -> Permutation pb pointsB ->
+      let PA := bodyA ++ map (marshal o) pa in
+      let PB := bodyB ++ map (marshal o) pb in
+      scan PA = PA /\ scan PB = PB /\
+      (forall dbA, rdb_compilation bytes (convert_ln o v2 serial) (text_accum o v2 serial (rearrange_total sort))
+                     (features v2) (scan PA) dbA ->
+                   compiled (convert_ln o v2 serial) (features v2) PA dbA) /\
+      forall d dbA, is_line_diff PA PB d -> compiled (convert_ln o v2 serial) (features v2) PA dbA ->
+        exists db', apply_diff (convert_ln o v2 serial) ksort dbA d = Ok db' /\
+          compiled (convert_ln o v2 serial) (features v2) PB db' /\
+          forall dbB, rdb_compilation bytes (convert_ln o v2 serial) (text_accum o v2 serial (rearrange_total sort))
+                        (features v2) (scan B) dbB ->
+            forall k, Permutation (vals db' k) (vals dbB k).
+Proof. exact preprocessed_diff_end_to_end_short. Qed.
+Print Assumptions C08_preprocessed_diff_end_to_end_short.
+
+(* non-vacuity of the added premise and guard: o_toy returns 16-byte addresses, the example files are short *)
+Example C08_short_example :
+  parse_ip_16 x_o /\ forallb short_lineb x_A = true /\ forallb short_lineb x_B = true /\
+  forallb (pre_line_textb x_o) x_PA = true /\ forallb (pre_line_textb x_o) x_PB = true.
+Proof. split; [exact toy_parse_ip_16|]. repeat split; vm_compute; reflexivity. Qed.
+Print Assumptions C08_short_example.
